@@ -64,7 +64,7 @@ def awkward_failures(ctx):
         except uberjob.CallError as e:
             return e
     for exc in (ValueError("v"), Cancelled("c"), SystemExit(3), Falsy("f"), inner_error()):
-        for variant in ("plain", "raising-repr-callable", "raising-repr-scope", "inside-except"):
+        for variant in ("plain", "raising-repr-callable", "raising-repr-scope", "inside-except", "single-call"):      # single-call: the plan consists of the failing call alone
             for workers, retry in ((1, None), (3, None), (1, 2), (3, 3)):
                 plan = uberjob.Plan()
                 dependents = []
@@ -77,7 +77,7 @@ def awkward_failures(ctx):
                         bad = plan.call(lambda: (_ for _ in ()).throw(exc))
                 else:
                     bad = plan.call(lambda: (_ for _ in ()).throw(exc))
-                after = plan.call(lambda v: dependents.append(v), bad)
+                after = bad if variant == "single-call" else plan.call(lambda v: dependents.append(v), bad)
                 box = {}
 
                 def target():
